@@ -268,6 +268,11 @@ def get_to_membership(tree):
                 tbl, key = st.value.func.value, st.value.args[0]
                 for _, b in list(_blocks(nxt)):
                     b[:] = do_block(b)
+                if not isinstance(key, (ast.Name, ast.Constant)):
+                    # the key computed in place gets a name first: `key = <expr>`
+                    knm = 'key' if 'key' not in fn_names[0] else '_key'
+                    out.append(ast.copy_location(ast.Assign(targets=[ast.Name(id=knm, ctx=ast.Store())], value=key), st))
+                    key = ast.Name(id=knm, ctx=ast.Load())
                 g = ast.If(test=ast.Compare(left=copy.deepcopy(key), ops=[ast.NotIn()], comparators=[copy.deepcopy(tbl)]), body=nxt.body, orelse=[])
                 a = ast.Assign(targets=st.targets, value=ast.Subscript(value=copy.deepcopy(tbl), slice=copy.deepcopy(key), ctx=ast.Load()))
                 out.append(ast.copy_location(g, nxt))
@@ -277,6 +282,67 @@ def get_to_membership(tree):
                 continue
             out.append(st)
             i += 1
+        return out
+    fn_names = [set()]
+    for fn in ast.walk(tree):
+        if isinstance(fn, ast.FunctionDef):
+            fn_names[0] = {n.id for n in ast.walk(fn) if isinstance(n, ast.Name)} | {a.arg for a in fn.args.args}
+            fn.body[:] = do_block(fn.body)
+    return n_done[0]
+
+
+class DictLiteralGet(ast.NodeTransformer):
+    """P9  {k1: v1, k2: v1, k3: v2}.get(x, d)  ->  v1 if x in (k1, k2) else v2 if x == k3 else d   (a small table of constants written as
+    the conditional chain it abbreviates; keys and values are constants, so == on the keys is the dictionary lookup)"""
+    def visit_Call(self, node):
+        self.generic_visit(node)
+        f = node.func
+        if isinstance(f, ast.Attribute) and f.attr == 'get' and isinstance(f.value, ast.Dict) and len(node.args) == 2 and not node.keywords \
+                and 0 < len(f.value.keys) <= 16 and all(isinstance(k, ast.Constant) for k in f.value.keys) \
+                and all(isinstance(v, ast.Constant) for v in f.value.values):
+            groups = []
+            for k, v in zip(f.value.keys, f.value.values):
+                for g in groups:
+                    if g[0].value == v.value and type(g[0].value) is type(v.value):
+                        g[1].append(k)
+                        break
+                else:
+                    groups.append((v, [k]))
+            x, out = node.args[0], node.args[1]
+            for v, ks in reversed(groups):
+                if len(ks) == 1:
+                    test = ast.Compare(left=copy.deepcopy(x), ops=[ast.Eq()], comparators=[ks[0]])
+                else:
+                    test = ast.Compare(left=copy.deepcopy(x), ops=[ast.In()], comparators=[ast.Tuple(elts=ks, ctx=ast.Load())])
+                out = ast.IfExp(test=test, body=v, orelse=out)
+            return ast.copy_location(out, node)
+        return node
+
+
+def get_default_to_if(tree):
+    """P10  `t = T.get(k, d)`  ->  `if k in T: t = T[k]` else: `t = d`  (dropped when d is t itself) for a module-level table T"""
+    globals_ = {n for st in tree.body for n in assigned_names(st)}
+    n_done = [0]
+
+    def do_block(block):
+        out = []
+        for st in block:
+            for _, b in list(_blocks(st)):
+                b[:] = do_block(b)
+            if isinstance(st, ast.Assign) and len(st.targets) == 1 and isinstance(st.targets[0], ast.Name) and isinstance(st.value, ast.Call) \
+                    and isinstance(st.value.func, ast.Attribute) and st.value.func.attr == 'get' and isinstance(st.value.func.value, ast.Name) \
+                    and st.value.func.value.id in globals_ and not st.value.keywords and len(st.value.args) == 2 \
+                    and isinstance(st.value.args[0], (ast.Name, ast.Constant)) \
+                    and not (isinstance(st.value.args[1], ast.Constant) and st.value.args[1].value is None):
+                tbl, key, dflt = st.value.func.value, st.value.args[0], st.value.args[1]
+                tgt = st.targets[0]
+                body = [ast.Assign(targets=[copy.deepcopy(tgt)], value=ast.Subscript(value=copy.deepcopy(tbl), slice=copy.deepcopy(key), ctx=ast.Load()))]
+                orelse = [] if (isinstance(dflt, ast.Name) and dflt.id == tgt.id) else [ast.Assign(targets=[copy.deepcopy(tgt)], value=dflt)]
+                g = ast.If(test=ast.Compare(left=copy.deepcopy(key), ops=[ast.In()], comparators=[copy.deepcopy(tbl)]), body=body, orelse=orelse)
+                out.append(ast.copy_location(g, st))
+                n_done[0] += 1
+                continue
+            out.append(st)
         return out
     for fn in ast.walk(tree):
         if isinstance(fn, ast.FunctionDef):
@@ -834,6 +900,8 @@ def normalise_source(src, rel, baseline, cf=None, lookups=True):
     MembershipDisplays().visit(tree)
     if lookups:
         get_to_membership(tree)
+        get_default_to_if(tree)
+        DictLiteralGet().visit(tree)
     if cf:
         apply_cf(tree, cf)
     if ast.dump(tree) != before:
